@@ -200,6 +200,18 @@ fn error_paths(rep: &mut Report) {
             }
         }
     }
+    // Sizing the backing file fails (2 * size exceeds the largest file offset):
+    // an error, and neither the descriptor nor anything else may stay behind.
+    for size in [1usize << 62, (1usize << 62) + 4096] {
+        for _ in 0..20 {
+            rep.count("error_path_cases", 1);
+            match catch(|| Buffer::<u8>::new(size).map(|_| ())) {
+                Ok(Err(_)) => {}
+                Ok(Ok(())) => rep.violation("C18|absurd-size-accepted", format!("Buffer::<u8>::new({size}) succeeded"), json!({"part": "error-paths", "size": size})),
+                Err(p) => rep.violation("C18|backing-file-sizing-failure-panics", format!("Buffer::<u8>::new({size}) panicked: {p}"), json!({"part": "error-paths", "size": size})),
+            }
+        }
+    }
     let _ = bad;
     let (m, f) = (deleted_mappings(), fd_count());
     if m != base_maps || f != base_fds {
